@@ -16,12 +16,12 @@ import (
 func init() {
 	register(&propDef{
 		id:      "C04",
-		explain: "Structural necessary conditions of 'a client call returns the response to its own request': (R1) in the transport's RoundTrip a connection obtained from AcquireConn is, on every path, closed, released to the pool, or handed to the stream-close closure exactly once; (R2) it is released to the pool only on paths where the response was read without error; (R3) inside the stream-close closure the connection is pooled only under a condition that depends on the body having been read to its end (and on the close decision and the caller's error); (R4) in the pipelining client a work item is given back to the pool by the caller only when it was never queued or its completion was received - never after a timeout while the connection goroutines still hold it; the pipeline writer hands every request it wrote either to the reader queue or completes it with an error and stops; (R5) response-header fields that closure consults live and that the transport did not also capture when it built the closure (recomputed on every run; none on today's tree, where the stream remembers its declared length and the close flag is captured) are never reset before the body stream of the same Response is closed, in any function of the module; (R6) the connection's buffered reader is returned to its pool by RoundTrip itself exactly on the paths on which no body stream reading through it is handed to the caller (there the stream-close callback returns it); (R7) every client function that reads a response off a connection for a request has consulted the request's IsHead() on every path to that read and stores SkipBody = true under it - a HEAD response announces a length but carries no body, and reading one would take the next response's bytes for it. (R8) where the client itself raises Response.SkipBody on the caller's Response (HEAD exchanges), the caller's value is stored back on every path before the function returns or signals completion, so the flag cannot stick to a reused Response object and leave a later GET body unread on the connection. (R9) in the pipeline connection worker the pending-response queue is drained only on paths that have received the end of both the writer and the reader goroutine (select cases and plain receives on the two completion channels), so no item can enter the queue after the drain and survive into the re-dialled connection. Not decided: interleavings, slow or partial servers, byte-level framing of responses (C03's mirror).",
+		explain: "Structural necessary conditions of 'a client call returns the response to its own request': (R1) in the transport's RoundTrip a connection obtained from AcquireConn is, on every path, closed, released to the pool, or handed to the stream-close closure exactly once; (R2) it is released to the pool only on paths where the response was read without error; (R3) inside the stream-close closure the connection is pooled only under a condition that depends on the body having been read to its end (and on the close decision and the caller's error); (R4) in the pipelining client a work item is given back to the pool by the caller only when it was never queued or its completion was received - never after a timeout while the connection goroutines still hold it; the pipeline writer hands every request it wrote either to the reader queue or completes it with an error and stops; (R5) response-header fields that closure consults live and that the transport did not also capture when it built the closure (recomputed on every run; none on today's tree, where the stream remembers its declared length and the close flag is captured) are never reset before the body stream of the same Response is closed, in any function of the module; (R6) the connection's buffered reader is returned to its pool by RoundTrip itself exactly on the paths on which no body stream reading through it is handed to the caller (there the stream-close callback returns it); (R7) every client function that reads a response off a connection for a request has consulted the request's IsHead() on every path to that read and stores SkipBody = true under it - a HEAD response announces a length but carries no body, and reading one would take the next response's bytes for it. (R8) where the client itself raises Response.SkipBody on the caller's Response (HEAD exchanges), the caller's value is stored back on every path before the function returns or signals completion, so the flag cannot stick to a reused Response object and leave a later GET body unread on the connection. (R9) in the pipeline connection worker the pending-response queue is drained only on paths that have received the end of both the writer and the reader goroutine (select cases and plain receives on the two completion channels), so no item can enter the queue after the drain and survive into the re-dialled connection. (R10) the pipeline worker does not return, once both its goroutines have stopped, before it found the pending queue empty; (R11) the close-or-release decision at the end of RoundTrip depends on the caller's Response.SkipBody: a body the caller asked not to read is still on the connection. Not decided: interleavings, slow or partial servers, byte-level framing of responses (C03's mirror).",
 		run:     runC04,
 	})
 	register(&propDef{
 		id:      "C18",
-		explain: "Structural necessary conditions of 'HostClient never exceeds MaxConns, its connection count is exact, and waiters are served': (E1) connsCount pairing on every path: AcquireConn keeps one unit exactly when it returns a freshly dialled connection; decConnsCount gives back one unit or hands it to exactly one dial goroutine for a waiter; dialConnFor gives the inherited unit back on every dial failure and keeps it with the connection otherwise; CloseConn gives back exactly one unit; (R-bound) the increment is control-dependent on connsCount < maxConns in the same critical section, where maxConns is the configured value or the default; (E8) conns, connsCount, connsWait and connsCleanerRun are only accessed under connsLock, wantConn.conn/err under wantConn.mu; (R-idle) a connection taken from the idle list is removed from it in the same critical section. (R-wait) in AcquireConn every return reached after a waiter was queued either hands out what the waiter received or has cancelled it (explicitly or through a deferred closure registered before the waiter was queued), so an abandoned waiter never receives a connection or a slot. (R-cancel) wantConn.cancel has no return before it took the waiter's mutex, reads the delivered connection inside that critical section, and on every path from that read to a return on which the value can be non-nil passes it to ReleaseConn/CloseConn - a delivered connection is never dropped on an unlocked look at the waiter. Not decided: waiter fairness, deadline timing, interleavings.",
+		explain: "Structural necessary conditions of 'HostClient never exceeds MaxConns, its connection count is exact, and waiters are served': (E1) connsCount pairing on every path: AcquireConn keeps one unit exactly when it returns a freshly dialled connection; decConnsCount gives back one unit or hands it to exactly one dial goroutine for a waiter; dialConnFor gives the inherited unit back on every dial failure and keeps it with the connection otherwise; CloseConn gives back exactly one unit; (R-bound) the increment is control-dependent on connsCount < maxConns in the same critical section, where maxConns is the configured value or the default; (E8) conns, connsCount, connsWait and connsCleanerRun are only accessed under connsLock, wantConn.conn/err under wantConn.mu; (R-idle) a connection taken from the idle list is removed from it in the same critical section. (R-wait) in AcquireConn every return reached after a waiter was queued either hands out what the waiter received or has cancelled it (explicitly or through a deferred closure registered before the waiter was queued), so an abandoned waiter never receives a connection or a slot. (R-cancel) wantConn.cancel has no return before it took the waiter's mutex, reads the delivered connection inside that critical section, and on every path from that read to a return on which the value can be non-nil passes it to ReleaseConn/CloseConn - a delivered connection is never dropped on an unlocked look at the waiter. (R-close) CloseConn closes the connection before it gives the slot back (the freed slot starts the next dial); (R-timer) initTimer, which re-arms the pooled wait timer, contains no explicit panic. Not decided: waiter fairness, deadline timing, interleavings.",
 		run:     runC18,
 	})
 	register(&propDef{
@@ -201,6 +201,7 @@ func runC04(p *Prog, r *Report) {
 	headSkipsBodyRule(p, r)
 	skipBodyRestoredRule(p, r)
 	pendingDrainedAfterBothStopped(p, r)
+	skippedBodyClosesConn(p, r)
 	// R4a: pipelineWork typestate in the callers
 	runPipelineCaller(p, r, "C04")
 	// R4b: the writer
@@ -541,6 +542,8 @@ func runC38(p *Prog, r *Report) {
 func runC18(p *Prog, r *Report) {
 	waiterCancelledOnGiveUp(p, r)
 	cancelReturnsDeliveredConn(p, r)
+	socketClosedBeforeSlotFreed(p, r)
+	timerReuseCannotPanic(p, r, "R-timer")
 	acq := p.Func("(*HostClient).AcquireConn")
 	dec := p.Func("(*HostClient).decConnsCount")
 	dialFor := p.Func("(*HostClient).dialConnFor")
@@ -1755,4 +1758,150 @@ func cancelReturnsDeliveredConn(p *Prog, r *Report) {
 		}
 	}
 	r.Floor("R-cancel", "reads of the delivered connection that cancel hands back", n, 1)
+}
+
+// skippedBodyClosesConn (C04.R11): when the caller asked the transport not to read the body (Response.SkipBody set
+// before the call) of a response that may have one (the request was not HEAD), the body stays on the connection.
+// The decision between CloseConn and ReleaseConn at the end of RoundTrip therefore depends on the SkipBody value
+// captured at entry - the condition's atoms include that field.
+func skippedBodyClosesConn(p *Prog, r *Report) {
+	rt := p.Func("(*transport).RoundTrip")
+	closeC := p.Func("(*HostClient).CloseConn")
+	relC := p.Func("(*HostClient).ReleaseConn")
+	if rt == nil || closeC == nil || relC == nil {
+		r.Undecided("R11", "RoundTrip / CloseConn / ReleaseConn", "not found")
+		return
+	}
+	n := 0
+	for _, b := range rt.Blocks {
+		iff, ok := b.Instrs[len(b.Instrs)-1].(*ssa.If)
+		if !ok {
+			continue
+		}
+		// an If one of whose successors releases and the other closes
+		calls := func(bb *ssa.BasicBlock, f *ssa.Function) bool {
+			for _, in := range bb.Instrs {
+				if c, ok := in.(ssa.CallInstruction); ok && c.Common().StaticCallee() == f {
+					return true
+				}
+			}
+			return false
+		}
+		if !(calls(b.Succs[0], closeC) && calls(b.Succs[1], relC)) && !(calls(b.Succs[1], closeC) && calls(b.Succs[0], relC)) {
+			continue
+		}
+		n++
+		at := condAtomsDepth(iff.Cond, 2)
+		// the decision variable is raised under conditions: an edge that brings the constant true into it is
+		// control-dependent on what guards the block it comes from
+		seen := map[ssa.Value]bool{}
+		var walk func(v ssa.Value, d int)
+		walk = func(v ssa.Value, d int) {
+			if d > 8 || seen[v] {
+				return
+			}
+			seen[v] = true
+			switch x := v.(type) {
+			case *ssa.Phi:
+				for i, e := range x.Edges {
+					if c, isC := e.(*ssa.Const); isC && c.Value != nil && c.Value.ExactString() == "true" {
+						pr := x.Block().Preds[i]
+						for _, g := range guardsOf(pr) {
+							at[g.Atom] = true
+						}
+						if len(pr.Preds) == 1 {
+							if iff2, ok := pr.Preds[0].Instrs[len(pr.Preds[0].Instrs)-1].(*ssa.If); ok {
+								for a := range condAtomsDepth(iff2.Cond, 2) {
+									at[a] = true
+								}
+							}
+						}
+					} else {
+						walk(e, d+1)
+					}
+				}
+			case *ssa.BinOp:
+				walk(x.X, d+1)
+				walk(x.Y, d+1)
+			case *ssa.UnOp:
+				// a local that a closure captures lives in memory: what is stored there, and under which conditions
+				if al, ok := x.X.(*ssa.Alloc); ok && x.Op == token.MUL {
+					for _, ref := range *al.Referrers() {
+						st, ok := ref.(*ssa.Store)
+						if !ok || st.Addr != ssa.Value(al) {
+							continue
+						}
+						for _, g := range guardsOf(st.Block()) {
+							at[g.Atom] = true
+						}
+						walk(st.Val, d+1)
+					}
+					return
+				}
+				walk(x.X, d+1)
+			}
+		}
+		walk(iff.Cond, 0)
+		r.Check("R11", "RoundTrip: whether the connection is pooled depends on the caller's SkipBody (a skipped body is still on the connection)", hasAtomContaining(at, "SkipBody"), p.Pos(iff.Pos()),
+			"the close-or-release decision depends on: "+atomsList(at)+" - not on Response.SkipBody: with SkipBody set by the caller for a GET the unread body goes back to the pool with the connection and is returned as the response to the next request")
+	}
+	r.Floor("R11", "close-or-release decisions at the end of RoundTrip", n, 1)
+}
+
+// timerReuseCannotPanic (C16.R9 / C18): the timers of the timeout wrappers and of the connection wait are pooled and
+// re-armed through initTimer on every request. Since go 1.23 Reset may report 'was active' for a timer that was
+// stopped while its send was in progress, so no explicit panic is reachable from initTimer: a panic there takes the
+// whole server down from a serve goroutine.
+func timerReuseCannotPanic(p *Prog, r *Report, rule string) {
+	fn := p.Func("initTimer")
+	if fn == nil {
+		r.Undecided(rule, "initTimer", "not found")
+		return
+	}
+	np := 0
+	for _, b := range fn.Blocks {
+		for _, in := range b.Instrs {
+			if _, ok := in.(*ssa.Panic); ok {
+				np++
+			}
+		}
+	}
+	ncall := 0
+	for _, f := range p.funcsIn("") {
+		allCalls(f, func(b *ssa.BasicBlock, c ssa.CallInstruction) {
+			if c.Common().StaticCallee() == fn {
+				ncall++
+			}
+		})
+	}
+	r.Floor(rule, "call sites of initTimer", ncall, 2)
+	r.Check(rule, "initTimer: re-arming a pooled timer cannot panic", np == 0, p.Pos(fn.Pos()),
+		fmt.Sprintf("%d explicit panic statements: Reset reports a timer as active when it was stopped while its send was in progress (go 1.23+ timers) - a handler that finishes at about the moment its timeout fires, on a keep-alive connection, or a connection wait that is satisfied as its timer fires, then crashes the process", np))
+}
+
+// socketClosedBeforeSlotFreed (C18.R-close): giving a connection's slot back (decConnsCount) starts the dial for the
+// next waiter. In CloseConn the connection is closed first: until Close returns the socket is still open, and a slot
+// freed before that lets MaxConns+1 connections be open at once.
+func socketClosedBeforeSlotFreed(p *Prog, r *Report) {
+	fn := p.Func("(*HostClient).CloseConn")
+	dec := p.Func("(*HostClient).decConnsCount")
+	if fn == nil || dec == nil {
+		r.Undecided("R-close", "(*HostClient).CloseConn / decConnsCount", "not found")
+		return
+	}
+	isClose := func(i ssa.Instruction) bool {
+		c, ok := i.(ssa.CallInstruction)
+		return ok && c.Common().IsInvoke() && c.Common().Method.Name() == "Close" && typeIsNetConn(c.Common().Value.Type())
+	}
+	n := 0
+	allCalls(fn, func(b *ssa.BasicBlock, c ssa.CallInstruction) {
+		if c.Common().StaticCallee() != dec {
+			return
+		}
+		n++
+		hit, path := reachAvoiding(fn, nil, func(i ssa.Instruction) bool { return i == ssa.Instruction(c) }, isClose, nil)
+		r.Check("R-close", "CloseConn closes the connection before it gives the slot back", hit == nil, p.Pos(c.Pos()),
+			"decConnsCount is reachable before the connection's Close: the freed slot starts a dial (or admits a new connection) while this socket is still open - with a slow Close more than MaxConns connections are open at once", blocksString(p, path)...)
+	})
+	r.Floor("R-close", "slot releases in CloseConn", n, 1)
 }
